@@ -320,6 +320,26 @@ func runApiStream(o Opts, prop, oracle string, mix apiMix) error {
 			}
 		}
 		time.Local = time.UTC
+		// the first and last days the wire format can carry, given in zones whose UTC reading falls outside years 1..9999
+		for _, c := range []struct {
+			y, m, d, hh, mm, ss int
+			off                 int
+		}{{1, 1, 1, 5, 30, 15, 14 * 3600}, {1, 1, 1, 0, 0, 1, 5*3600 + 1800}, {1, 1, 2, 3, 0, 0, 14 * 3600}, {9999, 12, 31, 21, 45, 59, -5 * 3600}, {9999, 12, 31, 23, 59, 59, -11 * 3600}, {9999, 12, 31, 12, 0, 0, -12 * 3600}, {9999, 12, 30, 23, 0, 0, -9 * 3600}} {
+			t := time.Date(c.y, time.Month(c.m), c.d, c.hh, c.mm, c.ss, 0, time.FixedZone("edge", c.off))
+			id := genID(r)
+			coq := fmt.Sprintf("SetTime %d %s %s %s %s %s %s", id, zc(t.Year()), zc(int(t.Month())), zc(t.Day()), zc(t.Hour()), zc(t.Minute()), zc(t.Second()))
+			oc := OpCase{Name: "SetTime", ID: id, Coq: coq, Resp: "SetTimeResponse", Code: 0x30, JS: map[string]any{"op": "SetTime", "id": id, "coq": coq}}
+			oc.Run = func(u uhppote.IUHPPOTE) string {
+				res, err := u.SetTime(id, t)
+				if err != nil || res == nil {
+					return "RErr"
+				}
+				return rvals(vn(uint64(res.SerialNumber)), vdatetimeT(res.DateTime))
+			}
+			reply := genReply(r, oc.Resp, id, 0, nil)
+			copy(reply[8:15], []byte{0x20, 0x24, 0x06, 0x15, 0x12, 0x00, 0x00})
+			apiCase(s, Cfg{}, oc, Script{Kind: "datagrams", Datagrams: [][]byte{reply}}, "edge-of-range/SetTime", nil, true)
+		}
 	}
 	if prop == "C06" && s.ReplayWants("net-") {
 		netC06(s, o.Tier)
